@@ -171,6 +171,33 @@ Proof.
 Qed.
 Print Assumptions C17_costs.
 
+(* Fractional simulation periods (Simulator.period = 2.5, 0.5, 7.5 … minutes): the rational versions of the price
+   vector, the interface accessors and the energy cost — built from the same source expressions translated over Q —
+   coincide with the integer versions on whole-minute periods (so every theorem above transfers), and for any period
+   whose microsecond count us = period * 6e7 is whole, the vector is the per-period lookup at start + k * us and the
+   energy cost is sum_k price_k * power_k * (period / 60). *)
+Theorem C17_fractional_periods : forall TS start n,
+  (forall p, get_tariffs_q TS start n (inject_Z p) = get_tariffs TS start n p) /\
+  (forall sim st,
+     iface_get_prices_q (sim_tariff sim) (sim_start sim) (inject_Z (sim_period sim)) (sim_iteration sim) n st
+       = iface_get_prices sim n st /\
+     iface_get_demand_charge_q (sim_tariff sim) (sim_start sim) (inject_Z (sim_period sim)) (sim_iteration sim) st
+       = iface_get_demand_charge sim st) /\
+  (forall p agg, energy_cost_agg_q TS start (inject_Z p) agg = energy_cost_agg TS start p agg) /\
+  (forall period us, 60000000 * period == inject_Z us ->
+     get_tariffs_q TS start n period = res_seq (map (fun k => get_tariff TS (start + k * us)%Z) (Zrange n))) /\
+  (forall period agg prices,
+     get_tariffs_q TS start (Z.of_nat (List.length agg)) period = Ok prices ->
+     exists c, energy_cost_agg_q TS start period agg = Ok c /\ c == Qsum (cost_terms prices agg (period / 60))).
+Proof.
+  exact (fun TS start n =>
+    conj (get_tariffs_q_int TS start n)
+   (conj (fun sim st => conj (iface_prices_q_int sim n st) (iface_demand_q_int sim st))
+   (conj (energy_cost_q_int TS start)
+   (conj (get_tariffs_q_whole TS start n) (energy_cost_q_formula TS start))))).
+Qed.
+Print Assumptions C17_fractional_periods.
+
 (* ---- the hypotheses are satisfiable by concrete, non-trivial instances ---- *)
 (* PG&E A-10, Tuesday 2019-01-15 09:00:00 (a winter weekday — the date on which the file used to be
    ambiguous): one schedule, rate 0.1477 $/kWh, demand rate 11.66 $/kW *)
